@@ -21,7 +21,8 @@ Count(s, P(_)) == Cardinality({ i \in DOMAIN s : P(s[i]) })
 
 ProgOf(p) == WithClosure([ kind |-> [a \in Alg |-> p.kind[a]],
                            ins  |-> [a \in Alg |-> { <<q[1], q[2]>> : q \in ToSet(p.ins[a]) }],
-                           vals |-> [a \in Alg |-> ToSet(p.vals[a])] ])
+                           vals |-> [a \in Alg |-> ToSet(p.vals[a])],
+                           fb   |-> [a \in Alg |-> { <<q[1], q[2]>> : q \in ToSet(p.fb[a]) }] ])
 
 Rec(t, i) == Traces[t].steps[i]
 
